@@ -253,7 +253,9 @@ func execute(t evid.TB, pl *plan, audience bool) *outcome {
 		if st, ok := o.(*media.Stream); ok && st != s {
 			return // a stream of an earlier case winding down
 		}
-		if _, ok := media.VerifConsumptionCID(o); ok && !tr.Mine(o) {
+		if cid, ok := media.VerifConsumptionCID(o); ok && (!tr.Mine(o) || (p == "broadcast.sent" && cid.Type() != media.RTPPacket)) {
+			// (FLV tags are broadcast by the converter goroutine, asynchronously to the script:
+			// "in the middle of a broadcast" means the RTP broadcast on the publisher's goroutine)
 			return
 		}
 		in.Hook(p, o)
@@ -381,7 +383,22 @@ func judge(t evid.TB, pl *plan, out *outcome) {
 		// (2) everything whose broadcast began after registration, in order
 		rp, ok := regPos[cs.cid]
 		if !ok {
-			evid.Violation(t, "no-registration", pl, "consumer %d never reached registration", id)
+			var tail []string
+			for _, ev := range out.trace {
+				if cid, ok := media.VerifConsumptionCID(ev.Obj); ok {
+					tail = append(tail, fmt.Sprintf("%s(cid %d)", ev.Point, cid))
+				} else {
+					if n, isInt := ev.Obj.(int); isInt {
+						tail = append(tail, fmt.Sprintf("%s(%d)", ev.Point, n))
+					} else {
+						tail = append(tail, ev.Point)
+					}
+				}
+			}
+			if len(tail) > 40 {
+				tail = tail[len(tail)-40:]
+			}
+			evid.Violation(t, "no-registration", pl, "consumer %d (cid %d as returned by StartConsume; 0 = StartConsume has not returned) never reached registration; windows fired %v, operations that outlived their window %d; end of the trace: %v", id, cs.cid, out.fired, out.blocked, tail)
 		}
 		var must []int
 		for i := 0; i < len(pl.pubs); i++ {
